@@ -20,10 +20,12 @@ From PBC Require Proofs.LeafSafe.
 Import ListNotations.
 Local Open Scope Z_scope.
 
-(* second serialisation = first serialisation, for the parser's normal form *)
+(* second serialisation = first serialisation, for the parser's normal form.  The bound 268435425 (max_input) on the
+   serialisation is where the parser is sure to accept it again: beyond, one message could have more than the
+   134217712 members its 23 slabs hold ("too many fields"), each member taking at least two bytes. *)
 Theorem C06_stable_partial : forall (E : env) (m : msg) (b : list Z),
   env_ok E = true -> canon_msg E m = true ->
-  pack_msg E m = Ok b -> Z.of_nat (length b) <= 2147483647 ->
+  pack_msg E m = Ok b -> Z.of_nat (length b) <= 268435425 ->
   exists m2, unpack_top E (m_desc m) b = Ok m2 /\ pack_msg E m2 = Ok b.
 Proof.
   intros E m b EO C Hp Hl. exists m. split; [|exact Hp]. unfold unpack_top.
@@ -58,7 +60,7 @@ Proof. exact pack_norm. Qed.
 Print Assumptions C06_serialisation_ignores_normalisation.
 
 Theorem C06_stable_when_normal_form : forall (E : env), env_ok E = true -> forall m b,
-  canon_msg E (norm_msg E m) = true -> pack_msg E m = Ok b -> Z.of_nat (length b) <= 2147483647 ->
+  canon_msg E (norm_msg E m) = true -> pack_msg E m = Ok b -> Z.of_nat (length b) <= 268435425 ->
   unpack_top E (m_desc m) b = Ok (norm_msg E m) /\ pack_msg E (norm_msg E m) = Ok b.
 Proof. exact stable_via_norm. Qed.
 Print Assumptions C06_stable_when_normal_form.
@@ -75,7 +77,7 @@ Theorem C06_accepted_input_is_reserialisable_and_stable : forall (E : env) d dat
   env_ok E = true -> LeafSafe.bytes data -> Mem.zlen data < 268435456 -> (d < length E)%nat ->
   unpack_top E d data = Ok m -> unk_small E m = true ->
   exists b, pack_msg E m = Ok b /\
-            (Z.of_nat (length b) <= 2147483647 ->
+            (Z.of_nat (length b) <= 268435425 ->
              unpack_top E d b = Ok (wnorm_msg E m) /\ pack_msg E (wnorm_msg E m) = Ok b).
 Proof. exact accepted_input_is_stable. Qed.
 Print Assumptions C06_accepted_input_is_reserialisable_and_stable.
